@@ -135,8 +135,13 @@ def credit_consistency(row, out):
         if c:
             probs.append("[credits-over] `%s` credited by a mutator-side primitive" % other)
     if marked != left_white:
-        probs.append("[credits-%s] credited marked=%d but %d object(s) left White" % (
-            "over" if marked > left_white else "under", marked, left_white))
+        # a second `marked` credit for an object that was already weakly marked and is now strongly marked is real
+        # marking work credited twice per cycle: it breaks the per-object work bound of the pacing (C09), not the
+        # truthfulness of the debt (C10: still only collection work pays)
+        strong_after_weak = sum(1 for i, o in out.post["objs"].items()
+                                if row.init["objs"][i]["colour"] == "WW" and o["colour"] in ("G", "B"))
+        asp = "under" if marked < left_white else ("repeat" if marked <= left_white + strong_after_weak else "over")
+        probs.append("[credits-%s] credited marked=%d but %d object(s) left White" % (asp, marked, left_white))
     if untraced != regray:
         probs.append("[credits-%s] credited untraced=%d but %d Black->Gray re-queue(s)" % (
             "under" if untraced > regray else "over", untraced, regray))
@@ -588,19 +593,20 @@ def spec_drop_all(row):
             po = out.post["objs"][i]
             want_drop = 1 if o["live"] == 1 else 0
             if po["dropped"] != want_drop:
-                probs.append("object %s (live=%s) destructed %s time(s)" % (i, o["live"], po["dropped"]))
+                # a missed or repeated destructor is the exactly-once clause (C04, C11), not GC safety
+                probs.append("[once] object %s (live=%s) destructed %s time(s)" % (i, o["live"], po["dropped"]))
             if po["freed"] > 1:
                 probs.append("object %s freed twice" % i)
         freed = sum(out.post["objs"][i]["freed"] for i in row.init["objs"])
         if out.kind == "return":
             if freed != n:
-                probs.append("%d of %d blocks released" % (freed, n))
+                probs.append("[count] %d of %d blocks released" % (freed, n))
             fm = sum(c for (k, c) in out.metrics() if k == "freed")
             if fm != n:
-                probs.append("Gc count decremented %d time(s) for %d blocks" % (fm, n))
+                probs.append("[count] Gc count decremented %d time(s) for %d blocks" % (fm, n))
         elif out.kind == "unwind":
             if freed < n - panicked:
-                probs.append("only %d of %d blocks released after %d destructor panic(s): the walk did not resume" % (
+                probs.append("[once] only %d of %d blocks released after %d destructor panic(s): the walk did not resume" % (
                     freed, n, panicked))
     return probs
 
